@@ -34,7 +34,7 @@ CATS = ['STRUCTURAL', 'HEADER', 'SPINE_OPERATION', 'CORE', 'ERROR', 'NOTE_REST',
         'OTHER_CONTEXTUAL', 'BARLINES', 'COMMENTS', 'FIELD_COMMENTS', 'LINE_COMMENTS', 'DYNAMICS', 'HARMONY', 'FINGERING', 'LYRICS', 'INSTRUMENTS',
         'IMAGE_ANNOTATIONS', 'BOUNDING_BOXES', 'LINE_BREAK', 'OTHER', 'MHXM', 'ROOT']
 ENCS = ['kern', 'ekern', 'bkern', 'bekern', 'akern', 'aekern']
-QUERY_OPS = ['get_all_tokens', 'get_all_tokens_encodings', 'get_unique_tokens', 'get_unique_token_encodings', 'frequencies', 'get_metacomments',
+QUERY_OPS = ['spine_types', 'spine_types', 'get_all_tokens', 'get_all_tokens_encodings', 'get_unique_tokens', 'get_unique_token_encodings', 'frequencies', 'get_metacomments',
              'get_voices', 'get_header_nodes', 'get_spine_ids', 'get_spine_count', 'get_leaves', 'get_header_stage', 'get_first_measure',
              'measures_count', 'iter', 'next', 'spine_types', 'is_monophonic', 'match', 'clone', 'count_nodes_by_stage', 'str_node', 'hash_tokens',
              'category_algebra', 'tokens_to_encodings', 'str_tokens', 'eq_tokens']
@@ -123,7 +123,7 @@ class C14:
                    'no thread interleavings: kernpy promises no thread safety and C14 does not quantify over schedules']
     PROBES = ['natural_raise', 'raise_mid_export', 'interrupt_delivered', 'memerr_delivered', 'range_inside_split', 'options_object_reused',
               'doc_with_error_tokens', 'io_fault_on_dump', 'compared_with_fresh', 'background_ops', 'graph_compared', 'two_imports_battery',
-              'dump_compared', 'args_checked', 'caller_edited_a_result', 'reentrant_callback_delivered']
+              'dump_compared', 'args_checked', 'caller_edited_a_result', 'reentrant_callback_delivered', 'argument_object_reused']
 
     # ================================================================ plan
     def gen_plan(self, seed, index, tier):
@@ -198,7 +198,7 @@ class C14:
             else:
                 fsplan['faults'].append({'kind': fk, 'at': {'byte': frng.randint(0, 120)}, 'sticky': fk == 'enospc_write', 'path': target})
         return {'property': self.PROPERTY, 'config': 'fault_injecting' if faulty else 'fault_free', 'doc': doc.to_json(), 'damage': damage,
-                'others': others, 'ops': ops, 'fs': fsplan}
+                'others': others, 'ops': ops, 'fs': fsplan, 'reuse_argument_objects': erng.random() < 0.4}
 
     def summarize(self, plan):
         return {'config': plan['config'], 'text': self._text(plan), 'ops': plan['ops'], 'fs_faults': plan['fs'].get('faults')}
@@ -306,6 +306,23 @@ class C14:
             return [[list(pos.get(id(n), ('?', '?'))), token_core(n.token)] for n in nodes]
 
         state = {'reused_opts_L': None, 'reused_opts_F': None}
+        # argument objects the caller keeps and edits in place between calls (live document only; the fresh copy gets new ones)
+        owned = {'list': [], 'set': set()}
+
+        def reuse(value, side):
+            """The same list / set OBJECT as in the previous call, emptied and refilled by its owner."""
+            if side != 'L' or not plan.get('reuse_argument_objects'):
+                return value
+            if isinstance(value, list):
+                owned['list'][:] = value
+                bump(probes, 'argument_object_reused')
+                return owned['list']
+            if isinstance(value, set):
+                owned['set'].clear()
+                owned['set'].update(value)
+                bump(probes, 'argument_object_reused')
+                return owned['set']
+            return value
 
         def check_args(passed, pristine, opname, side):
             """Oracle 4: every argument object the caller passed deep-equals its pre-call copy (rebuilt from the literal spec)."""
@@ -336,6 +353,11 @@ class C14:
             k = op['op']
             if k == 'dumps':
                 kw = dumps_kwargs(op['opts'])
+                for key in ('spine_types', 'include', 'exclude'):
+                    if key in kw:
+                        kw[key] = reuse(kw[key], side)      # at most one list and one set object are shared per call
+                        if isinstance(kw[key], (list, set)):
+                            break
                 try:
                     return kp.dumps(d, **kw)
                 finally:
@@ -378,7 +400,7 @@ class C14:
                 data = fs.get(path)
                 return norm_graph(data.decode('utf-8')) if data is not None else None
             if k in ('get_all_tokens', 'get_unique_tokens', 'get_all_tokens_encodings', 'get_unique_token_encodings', 'frequencies'):
-                arg = cat_arg(op.get('cats'))
+                arg = reuse(cat_arg(op.get('cats')), side)
                 try:
                     if k in ('get_all_tokens', 'get_unique_tokens'):
                         return own(getattr(d, k)(filter_by_categories=arg), op, side, norm_tokens)
@@ -412,7 +434,7 @@ class C14:
                 return [next(d), next(d)]
             if k == 'spine_types':
                 h = op.get('headers')
-                arg = list(h) if h is not None else None
+                arg = reuse(list(h), side) if h is not None else None
                 try:
                     return own(kp.spine_types(d, headers=arg), op, side, list)
                 finally:
@@ -541,8 +563,11 @@ class C14:
 
         # ---- time 0: two imports of the same text are indistinguishable
         try:
+            # (two further imports, not L itself: the live document stays untouched - cold - until the first operation of the
+            # history, so that a fault can land in the very first use of anything that is built lazily per document)
             F0, F0_err = fresh()
-            b1, b2 = self._battery(kp, L, L_err, norm_graph), self._battery(kp, F0, F0_err, norm_graph)
+            F00, F00_err = fresh()
+            b1, b2 = self._battery(kp, F00, F00_err, norm_graph), self._battery(kp, F0, F0_err, norm_graph)
             log.emit('client', 'battery-0', None, digest_of(b1))
             bump(probes, 'two_imports_battery')
             if b1 != b2:
